@@ -38,15 +38,22 @@ MapLower(c) == CASE c \in {"-", "FIGDASH", "ENDASH", "EMDASH", "HYPHEN"} -> <<"-
                  [] OTHER                      -> <<Lower(c)>>
 
 ------------------------------------------------------------------------------
-(* flushBuf: html.UnescapeString (only &amp / &amp; can be spelled in the explored alphabets) then https:// -> http:// (fix 72a5ac3) *)
+(* flushBuf: html.UnescapeString (&amp / &amp; and the numeric references of alphabet I are what the explored alphabets can spell) then https:// -> http:// (fix 72a5ac3) *)
 HasAt(w, p, lit) == p + Len(lit) - 1 <= Len(w) /\ SubSeq(w, p, p + Len(lit) - 1) = lit
 
+(* numeric character references: "&#" digits, an optional ";" (the three the explored alphabets can spell: ")", ".", ":") *)
+RECURSIVE DigitsEnd(_, _)
+DigitsEnd(w, q) == IF q <= Len(w) /\ IsDigit(w[q]) THEN DigitsEnd(w, q + 1) ELSE q      \* first position behind the digits
+CodeChar(ds) == CASE ds = <<"4", "1">> -> ")" [] ds = <<"4", "6">> -> "." [] ds = <<"5", "8">> -> ":" [] OTHER -> "?"
 RECURSIVE UnescFrom(_, _)
 UnescFrom(w, p) ==
   IF p > Len(w) THEN <<>>
   ELSE IF HasAt(w, p, LitAmp)
        THEN LET q == p + Len(LitAmp) IN
             <<"&">> \o UnescFrom(w, IF q <= Len(w) /\ w[q] = ";" THEN q + 1 ELSE q)
+       ELSE IF HasAt(w, p, <<"&", "#">>) /\ p + 2 <= Len(w) /\ IsDigit(w[p + 2])
+       THEN LET q == DigitsEnd(w, p + 2) IN
+            <<CodeChar(SubSeq(w, p + 2, q - 1))>> \o UnescFrom(w, IF q <= Len(w) /\ w[q] = ";" THEN q + 1 ELSE q)
        ELSE <<w[p]>> \o UnescFrom(w, p + 1)
 RECURSIVE ReplFrom(_, _, _, _)
 ReplFrom(w, p, from, to) ==
